@@ -297,7 +297,9 @@ def worker(ctx):
                 q2 |= cut_molecule(extra, rng)
                 check_pair(ctx, q2, t2, 'pattern-grown-in-place:' + str(q2), str(t2), rng, False)
             except Exception as e:
-                ctx.note('in-place union history failed on %s: %r' % (tname, e))
+                # nothing in this sequence is allowed to fail: every step is a public operation on valid molecules
+                ctx.violation('search-after-in-place-union-raises/%s' % type(e).__name__, 'target %s grown in place: %r' % (tname, e),
+                              {'pattern': 'history', 'target': tname})
 
 
 def replay(ctx, mechanism, w):
